@@ -2372,8 +2372,8 @@ func main() {
 	g.fixed()
 	names := []string{"web", "api", "web.v1", "db2", "*", "*"}
 	if *tier == "thorough" {
-		g.exhaustive(3, 4, 43)
-		g.random(6000, 5, names)
+		g.exhaustive(3, 4, 71)
+		g.random(6000, 8, names)
 		g.random(600, 3, append(names, "a|b", "c++"))
 		g.malformed(1200)
 		g.store(1200)
